@@ -15,7 +15,7 @@ VERIF = os.path.dirname(os.path.dirname(os.path.abspath(__file__)))
 
 MODES = {
     'C01': ['bnd_doc', 'bnd_tables', 'c07_ol', 'c01_colspan', 'c01_specificity', 'c20_nth', 'c01_engine', 'c01_css', 'bnd_mut'],
-    'C02': ['bnd_tables', 'bnd_doc', 'bnd_c07', 'bnd_c04'],
+    'C02': ['bnd_tables', 'bnd_doc', 'bnd_c07', 'bnd_c04', 'c02_elements'],
     'C03': ['bnd_tables', 'bnd_doc', 'c03_elements'],
     'C04': ['bnd_c04'],
     'C05': ['bnd_tables'],
@@ -23,7 +23,7 @@ MODES = {
     'C07': ['bnd_c07', 'c07_ol', 'c07_compose'],
     'C08': ['bnd_c08', 'c08_elements'],
     'C09': ['bnd_c09', 'c16_affix'],
-    'C11': ['bnd_doc', 'bnd_tables', 'bnd_mut'],
+    'C11': ['bnd_doc', 'bnd_tables', 'bnd_mut', 'c02_elements'],
     'C12': ['bnd_c12'],
     'C13': ['bnd_c13', 'c13_minwrap'],
     'C14': ['bnd_c14', 'c14_hardwrap', 'c14_elements'],
@@ -52,6 +52,7 @@ LEGACY_BOUND = {
     'c14_hardwrap': '3 documents x widths 3..=8: an id whose first word is hard-wrapped still yields exactly one fragment marker',
 }
 STANDS_FOR = {
+    'c02_elements': 'the width bound and the overflow option over the element catalogue (elements the seeded grammars do not produce)',
     'c08_elements': 'process_dom_node (<a> arm: href / name / content-less links), start_link / end_link through every container kind',
     'c16_compose': 'do_render_node BlockQuote / Ul arms with a user decorator: prefix measured by display width, verbatim on every line',
     'bnd_mut': 'the whole pipeline on malformed input (html5ever error recovery, process_dom_node on whatever tree results, the nom CSS grammar on broken style sheets)',
